@@ -5,6 +5,7 @@
    footprint level (known finding C10/unlocked-wrapper-reads); the Go memory
    model is outside the model. *)
 From Stackage Require Import Base Generated StackImpl StackSpec StackRefine Conc ConcProofs.
+From Stackage Require Import Guard GuardLock GeneratedIR GuardLockProps.
 Open Scope Z_scope.
 
 (* For ANY number of goroutines, ANY programs built from Push, Pop, Insert,
@@ -85,4 +86,55 @@ Proof.
   cbv zeta. split; [right; vm_compute; repeat split; congruence|].
   split; [vm_compute; congruence|].
   split; [repeat constructor; unfold in_i64, two63; lia|]. vm_compute. reflexivity.
+Qed.
+
+(* "All writes to the shared content ... happen while the stack's lock is
+   held": over the statement-level IR regenerated from /repo (translator T2),
+   for each of the eight mutators and EVERY path through it and through every
+   package function it calls on the same stack: each store into the slice
+   header or an element slot happens between a call of stack.lock and the
+   matching stack.unlock, the lock is never requested while held (no
+   self-deadlock), never released while free, and the call returns with the
+   lock released on every exit (no leaked lock).  Paths, loop iteration counts
+   and undecided conditions are all quantified by the IR semantics Guard.exec. *)
+Theorem c10_content_writes_under_lock :
+  forall e, In e ir_entries -> is_lock_mutator e = true ->
+    exists body, Guard.lookup ir_table (en_fid e) = Some body /\
+      forall tr o, exec (Guard.lookup ir_table) env_init false body tr o ->
+        disciplined false tr /\ held_after false tr = false.
+Proof. apply lockset_static. vm_compute. reflexivity. Qed.
+Print Assumptions c10_content_writes_under_lock.
+
+Theorem c10_all_eight_mutators_are_checked : lock_mutators_present = true.
+Proof. vm_compute. reflexivity. Qed.
+Print Assumptions c10_all_eight_mutators_are_checked.
+
+(* "... and to the lock bookkeeping": the only functions storing into the
+   bookkeeping field are stack.lock and stack.unlock; inside stack.lock every
+   such store comes after Mutex.Lock, inside stack.unlock before Mutex.Unlock *)
+Theorem c10_bookkeeping_written_under_mutex :
+  ldr_only_in_lock_unlock = true /\
+  exists fl fu bl bu,
+    fid_of (B "*stack.lock") = Some fl /\ fid_of (B "*stack.unlock") = Some fu /\
+    Guard.lookup ir_table fl = Some bl /\ Guard.lookup ir_table fu = Some bu /\
+    (forall top tr o, exec (Guard.lookup ir_table) env_init top bl tr o -> ldr_ok is_mlock true false tr) /\
+    (forall top tr o, exec (Guard.lookup ir_table) env_init top bu tr o -> ldr_ok is_munlock false false tr).
+Proof. split; [vm_compute; reflexivity|]. apply ldr_static. vm_compute. reflexivity. Qed.
+Print Assumptions c10_bookkeeping_written_under_mutex.
+
+(* the discipline predicate is not trivially true: a store outside the lock,
+   a re-lock and a leaked lock are each rejected; the shape of a real mutator
+   is accepted *)
+Example c10_discipline_nonvacuous :
+  ~ disciplined false [(false, EWrite LHdr)] /\
+  ~ disciplined false [(false, ELock); (false, ELock)] /\
+  held_after false [(false, ELock); (false, EWrite LSlot)] = true /\
+  disciplined false [(false, EDeref); (false, ELock); (false, EWrite LSlot); (false, EWrite LHdr); (false, EUnlock)] /\
+  ~ ldr_ok is_mlock true false [(false, EWrite LCfgLdr); (false, EMLock)] /\
+  ldr_ok is_mlock true false [(false, EMLock); (false, EWrite LCfgLdr)] /\
+  ~ ldr_ok is_munlock false false [(false, EMUnlock); (false, EWrite LCfgLdr)].
+Proof.
+  cbn. repeat split; try discriminate; try tauto; intros H;
+    repeat match goal with H : _ /\ _ |- _ => destruct H end;
+    repeat match goal with H : ?a = ?a -> _ |- _ => specialize (H eq_refl) end; try discriminate.
 Qed.
